@@ -5,6 +5,7 @@ C06, round 4: the generated loop / fancy-indexing structure (`Gen.Admix.loopRows
 program never returns coinciding lower and upper indices; a loop nest that visits every line, with the scratch array
 zeroed per line and integrated along axis 0, is `pulseRaw`.
 -/
+set_option linter.unusedSimpArgs false
 namespace DadiVerif.Admix
 
 /-- the generated cell program never returns the same index twice (the clamps are applied to the upper index and the
